@@ -37,8 +37,12 @@ Dispatch(e) == LET k == e.k  a == e.a IN
     \/ e.op = "CtorIL"      /\ CtorIL(k, a.es)
     \/ e.op = "CtorCopy"    /\ CtorCopy(k)
     \/ e.op = "CopyAssign"  /\ CopyAssign(k)
-    \/ e.op = "CtorMove"    /\ CtorMove(k)
-    \/ e.op = "MoveAssign"  /\ MoveAssign(k)
+    \/ e.op = "CtorMove"    /\ CtorMove(k, a.re, e.st.o[Other(k)].idx)
+    \/ e.op = "MoveAssign"  /\ MoveAssign(k, a.re, e.st.o[Other(k)].idx)
+    \/ e.op = "ProxySwap"   /\ a.i < Len(e.st.o[k].idx) /\ a.j < Len(e.st.o[k].idx)
+                            /\ ProxySwap(k, a.i, a.j, e.st.o[k].idx[a.i + 1], e.st.o[k].idx[a.j + 1])
+    \/ e.op = "MaxSize"     /\ e.res.exc = "none" /\ MaxSize(k, e.res.val[1])
+    \/ e.op = "Rel"         /\ e.res.exc = "none" /\ Rel(k, e.res.val)
     \/ e.op = "Resize"      /\ Resize(k, a.n)
     \/ e.op = "ResizeV"     /\ ResizeV(k, a.n, a.v)
     \/ e.op = "ResizeO"     /\ ResizeO(k, a.n, a.e, a.ck)
